@@ -27,7 +27,11 @@ struct Rec {
 struct RecAllocator : TestMemoryAllocator {
     std::vector<Rec> blocks;
     int double_returns = 0, foreign_returns = 0;
+    // re-entrancy: while it serves a request of the cache, the underlying allocator may itself ask the (installed) cache for
+    // a buffer and keep it - e.g. an allocator that tags or logs with strings
+    TestMemoryAllocator* nest_through = nullptr; size_t nest_size = 0; char* nested = nullptr;
     char* alloc_memory(size_t size, const char*, size_t) override {
+        if (nest_through) { TestMemoryAllocator* a = nest_through; nest_through = nullptr; nested = a->alloc_memory(nest_size, "nested.cpp", 1); }
         char* p = (char*)malloc(size ? size : 1);
         memset(p, 0, size ? size : 1);
         blocks.push_back({p, size, false});
@@ -250,7 +254,7 @@ int main(int argc, char** argv) {
         // the wrapper that installs the cache as the string allocator of the whole process: whatever is still in use when it is
         // destroyed goes back to the underlying allocator as well ("cleared (or destroyed)"), and the previous allocator is restored
         int depth = T ? 6 : 5;
-        vf::info("global.bound", vf::fmt("GlobalSimpleStringCache over a recording string allocator: every history of <= %d alloc(10|40|100|200|300) / release-of-a-live-buffer operations through the installed allocator, then destruction of the wrapper", depth));
+        vf::info("global.bound", vf::fmt("GlobalSimpleStringCache over a recording string allocator: every history of <= %d alloc(10|40|100|200|300) / release-of-a-live-buffer / alloc-during-which-the-underlying-allocator-requests-a-buffer-of-the-same-class operations through the installed allocator, then destruction of the wrapper", depth));
         vf::section_dfs("global", 2, false, [&](vf::Chooser& ch) {
             vf::ctx("global-cache");
             static const size_t GS[] = {10, 40, 100, 200, 300};
@@ -263,13 +267,28 @@ int main(int argc, char** argv) {
                 if (a != g->getAllocator()) vf::fail("global/not-installed", "constructing the wrapper did not install its allocator as the string allocator");
                 std::vector<Handle> live;
                 for (int step = 0; step < depth; step++) {
-                    int n = 5 + (int)live.size() + 1;
+                    int n = 5 + (int)live.size() + 1 + 2;
                     int op = ch.choose(n);
-                    char buf[64];
+                    char buf[96];
+                    if (op >= 5 + (int)live.size() + 1) {
+                        // a request that makes the cache obtain a new block, during which the underlying allocator asks the cache for
+                        // a buffer of the same size class and keeps it
+                        bool big = op - (5 + (int)live.size() + 1) == 1;
+                        size_t outer = big ? 100 : 10, inner = big ? 110 : 20;
+                        rec.nest_through = a; rec.nest_size = inner; rec.nested = nullptr;
+                        char* p = a->alloc_memory(outer, "g.cpp", 3);
+                        rec.nest_through = nullptr;
+                        memset(p, 0x5a, outer); live.push_back({p, outer, -1});
+                        if (rec.nested) { memset(rec.nested, 0x6b, inner); live.push_back({rec.nested, inner, -1}); }
+                        snprintf(buf, sizeof buf, "alloc(%zu)[underlying allocator nests alloc(%zu)%s] ", outer, inner, rec.nested ? "" : ": not reached (a free block was reused)"); trace += buf;
+                        for (size_t i = 0; i < live.size(); i++) for (size_t j = i + 1; j < live.size(); j++)
+                            if (live[i].p < live[j].p + live[j].size && live[j].p < live[i].p + live[i].size) vf::fail("alloc/alias-live", trace + ": two buffers in use overlap");
+                    } else
                     if (op < 5) { char* p = a->alloc_memory(GS[op], "g.cpp", 1); memset(p, 0x5a, GS[op]); live.push_back({p, GS[op], -1}); snprintf(buf, sizeof buf, "alloc(%zu) ", GS[op]); trace += buf; }
                     else if (op < 5 + (int)live.size()) { Handle h = live[op - 5]; live.erase(live.begin() + (op - 5)); a->free_memory(h.p, h.size, "g.cpp", 2); snprintf(buf, sizeof buf, "release(%zu) ", h.size); trace += buf; }
                     else break;       // stop early: destroy now
                 }
+                if (g_warnings) vf::fail("dealloc/warning-on-known-buffer", trace + ": releasing a buffer the cache handed out printed the unknown-buffer warning");
                 trace += vf::fmt("destroy[%zu in use] ", live.size());
                 delete g;
                 if (SimpleString::getStringAllocator() != &rec) vf::fail("global/previous-allocator-not-restored", trace + ": after destruction the string allocator is not the one that was installed before");
